@@ -159,6 +159,14 @@ def gen_c04(seed, count):
         c.connect(connack(0, 0, []))
         pend = []
         ids = [1, 2, 3, 7, 300, 65535]
+        if idx % 4 == 3:
+            # every inbound QoS 2 slot taken (the client advertises Receive Maximum 8), then retransmissions, PUBRELs and
+            # reconnects on the full table
+            ids = [1, 2, 3, 7, 300, 65535, 4, 9, 10]
+            for pid in r.sample(ids, r.choice([7, 8, 8, 8])):
+                c.feed(publish(2, pid, b't', bytes([pid & 255])))
+                c.poll()
+                pend.append(pid)
         for _ in range(r.randint(3, 14)):
             x = r.random()
             if x < 0.30:
